@@ -72,6 +72,53 @@ class SignalMonitor(Monitor):
         return v
 
 
+class MultiSignalMonitor(Monitor):
+    """N persistent signals with distinct payloads to a task that consumes one per suspension: each is
+    consumed exactly once; fewer than N handled -> the stage is durably SUSPENDED."""
+
+    name = "signal"
+
+    def __init__(self, need, stage="G"):
+        self.need, self.stage = need, stage
+
+    def init(self, ex):
+        return {}
+
+    def step(self, ex, tr, ms):
+        return ms, []
+
+    def final(self, ex, view, ms, state):
+        v = []
+        g = view.stages[self.stage]
+        wf = view.wf["status"]
+        sent = self.need - state.budget["signal"]
+        got = g["out"].get("received") if g["status"] == "SUCCEEDED" else g["ctx"].get("received", [])
+        ns = sorted(x.get("n") for x in (got or []))
+        if len(set(ns)) != len(ns):
+            v.append({"kind": "signal-consumed-more-than-once", "received": ns, "sig": "signal-consumed-twice"})
+        if any(n not in range(1, sent + 1) for n in ns):
+            v.append({"kind": "received-a-signal-never-sent", "received": ns, "sent": sent, "sig": "signal-invented"})
+        if sent < self.need:
+            if g["status"] != "SUSPENDED" or wf in COMPLETE:
+                v.append({"kind": "not-suspended-while-waiting-for-signal", "stage": g["status"], "wf": wf, "sent": sent,
+                          "sig": "not-suspended-without-signal:" + diagnose(view)})
+            elif ns != list(range(1, sent + 1)):
+                v.append({"kind": "signal-lost", "signal": "persistent", "sent": sent, "received": ns,
+                          "buffer": g["ctx"].get("_buffered_signals"), "sig": "signal-lost:persistent:partial"})
+            return v
+        if g["status"] != "SUCCEEDED" or wf != "SUCCEEDED" or ns != list(range(1, self.need + 1)):
+            v.append({"kind": "signal-lost", "signal": "persistent", "sent": sent, "received": ns, "stage": g["status"],
+                      "wf": wf, "buffer": g["ctx"].get("_buffered_signals"), "sig": "signal-lost:persistent:of-several"})
+        elif g["ctx"].get("_buffered_signals"):
+            v.append({"kind": "consumed-signal-still-buffered", "buffer": g["ctx"].get("_buffered_signals"),
+                      "sig": "buffer-not-empty"})
+        return v
+
+
+def multi_spec(need):
+    return [{"stage": "G", "persistent": True, "name": "go", "data": {"n": i + 1}} for i in range(need)]
+
+
 def spec(persistent):
     return [{"stage": "G", "persistent": persistent, "name": "go", "data": DATA}]
 
@@ -84,6 +131,15 @@ def jobs(tier, seed):
                    "budget": {"signal": 1}, "kind": "e1"})
         js.append({"label": f"gate|{tag}|signal-anywhere,noack1", "wl": wl("suspend_gate"), "persistent": p,
                    "budget": {"signal": 1, "noack": 1}, "kind": "e1"})
+    js.append({"label": "gate2|2 persistent signals|signals-anywhere", "wl": wl("suspend_gate_n", 2), "multi": 2,
+               "persistent": True, "budget": {"signal": 2}, "kind": "e1"})
+    js.append({"label": "gate2|2 persistent signals|signals-anywhere,noack1", "wl": wl("suspend_gate_n", 2), "multi": 2,
+               "persistent": True, "budget": {"signal": 2, "noack": 1}, "kind": "e1", "max_states": 600000})
+    js.append({"label": "gate3|3 persistent signals|signals-anywhere", "wl": wl("suspend_gate_n", 3), "multi": 3,
+               "persistent": True, "budget": {"signal": 3}, "kind": "e1", "max_states": 600000})
+    if tier == "thorough":
+        js.append({"label": "gate3|3 persistent signals|signals-anywhere,noack1", "wl": wl("suspend_gate_n", 3), "multi": 3,
+                   "persistent": True, "budget": {"signal": 3, "noack": 1}, "kind": "e1", "max_states": 900000})
     js.append({"label": "gate|persistent|crash-images", "wl": wl("suspend_gate"), "persistent": True, "kind": "e2",
                "pairs": tier == "thorough"})
     from checks import C07
@@ -109,6 +165,10 @@ def jobs(tier, seed):
 def build(job):
     w = world()
     workload = make_workload(job["wl"])
+    if job.get("multi"):
+        return Explorer(w, workload, [MultiSignalMonitor(job["multi"])], job.get("budget"),
+                        signal_spec=multi_spec(job["multi"]), max_states=job.get("max_states", 200000),
+                        time_cap=job.get("time_cap", 1200))
     return Explorer(w, workload, [SignalMonitor(job["persistent"])], job.get("budget"), signal_spec=spec(job["persistent"]),
                     max_states=job.get("max_states", 200000), time_cap=job.get("time_cap", 1200))
 
